@@ -186,6 +186,19 @@ theorem moved_from_usable (v : Vec) : v.movedFrom.clear.size = 0 ∧ v.movedFrom
   · simp only [Vec.clear, Vec.movedFrom, Vec.size, Vec.fixedLoc, Loc.resize]; split <;> simp_all
   · rfl
 
+/-- **a moved-from vector is an empty vector** (no block, no capacity, the locator refers to no memory — after the repair
+    `4a55bf7`): it represents the empty sequence exactly as a vector that never held an element does, so it can be the
+    source and the target of every operation, be reserved and filled, and every history theorem covers it -/
+theorem moved_from_is_an_empty_vector (ps : List Param) (hl : ListOK ps) (v : Vec) (a : AVec) (h : VInv ps v a) :
+    VInv ps v.movedFrom (.live []) ∧ v.movedFrom.cap = 0 ∧ v.movedFrom.ptr.blk = none :=
+  ⟨moved_is_empty ps hl _ (movedFrom_inv ps v a h), rfl, rfl⟩
+
+/-- in the abstract map of `history_any_number_of_vectors` a moved-from name may be read as the empty sequence: the
+    preconditions "the source is live" of copy construction and of both assignments are then met by moved-from sources -/
+theorem moved_from_sources (ps : List Param) (hl : ListOK ps) (w : World) (A : Nat → Option AVec) (h : WInv ps w A) (k : Nat)
+    (hk : A k = some .moved) : WInv ps w (aset A k (some (.live []))) :=
+  h.moved_as_empty hl k hk
+
 /-- a vector that received the bookkeeping through a relocating locator constructor represents the same element sequence
     in the same canonical layout: every history theorem (C01, C06, C10, C16, C18) applies to a copy as to its source -/
 theorem relocated_offset_table {v w : Vec} {es : List Elem} (h : VarInv v es) (junk : Nat → Nat) (hps : w.ps = v.ps)
